@@ -933,6 +933,17 @@ def solve(rep, ex: Explorer):
                         b = Q[-1][0].evar
                         okk = ev.key.label == ("declname", b) and isinstance(ev.value, Sym) and ev.value.label[:1] == ("as_long",) and ev.value.label[1][:1] == ("modelval",) and ev.value.label[1][2] == ("elem", b, "decl")
                         rep.check(okk, "MODEL.extract", f"{site}:{ev.node.lineno}", "name/value pairing", "each constant's name is paired with its own value", extracted=f"{ev.key!r}: {ev.value!r}"[:160], required="d.name(): m[d]", function=site)
+                if fn == "solve_pareto_front" and which == "vars" and decided(p, ("empty", ("minvars",))) is False:
+                    chks = [v for k, v in p.decisions if k[0] == "check"]
+                    if chks and chks[-1] == "sat":
+                        apps = [e for e, Q2 in evs if e.kind == "list.append" and not Q2 and isinstance(e.value, Ref) and isinstance(p.state.heap.get(e.value.oid), HDict)]
+                        cont = p.outcome[0] == "loopback" or (p.outcome[0] == "return" and decided(p, ("isnone", "maxsol")) is False)
+                        rep.check(len(apps) == 1 and cont, "REV.entry", site, "front member recorded", "every optimum the optimiser reports is recorded once; the search goes on unless the requested number is reached",
+                                  extracted=f"{len(apps)} recorded, outcome {p.outcome[0]}", required="1 recorded, continue (or stop at max_solutions)", function=site)
+                        if p.outcome[0] == "return":
+                            vw = view(p.state, p.outcome[1])
+                            rep.check(isinstance(vw, tuple) and vw[0] == "list" and any(sg[0] == "one" for sg in vw[1]) and any(sg[0] == "sym" for sg in vw[1]), "REV.entry", site, "front returned",
+                                      "the recorded optima (earlier ones and this one) are what is returned", extracted=repr(vw)[:120], required="results so far + this one", function=site)
                 if p.outcome[0] == "return" and fn == "solve_and_get_model":
                     chks = [v for k, v in p.decisions if k[0] == "check"]
                     if chks and chks[-1] == "sat":
@@ -1095,6 +1106,10 @@ def entry(rep, ex: Explorer):
                     if okz:
                         _, b, fam, g, kt, vt = zs[0]
                         okz = desc(kt) == ("name", ("gamma+_", ("elem", b, "key"))) and vt == Const(0)
+                        # only where the solver reported nothing and nothing is fixed
+                        absent = ("not", ("in", ("name", ("gamma+_", ("elem", b, "key"))), ("dict", rv.oid if fn == "c_revision" else o.segs[0][1].oid)))
+                        want_g = absent if nFP else ("and", (absent, ("not", ("in", ("elem", b, "key"), FPD))))
+                        okz = okz and g == want_g
                     rep.check(okz, "REV.entry", site, f"gamma+ zero in the result ({tag}; fixed+ {'absent' if nFP else 'given'})", "with gamma_plus_zero the returned gamma+ of the unfixed conditionals are 0",
                               extracted=repr([(desc(e[4]), e[5]) for e in zs])[:200], required="gamma+_i = 0", function=site)
                 else:
